@@ -44,6 +44,14 @@ class Run(RunBase):
         self.stash = {}  # id -> (object, kind, assigned)  removed obstacles, kept for re-adding the same object
         self.dir = None
         self.last = "start"
+        # an independent scenario (same network, every obstacle added, nothing ever assigned or removed): its registries
+        # have to stay empty whatever happens to the scenario under test
+        self.idle = build.build_scenario({"network": universe["network"], "sid": {"country": "DEU"}})
+        for spec in universe["obstacles"].values():
+            try:
+                self.idle.add_objects(build.build_obstacle(spec))
+            except Exception:  # noqa
+                pass
         self.shadow = None  # sibling instance after a deepcopy that keeps the original alive
 
     _FIELDS = ("sc", "contained", "assigned", "stash")
@@ -247,6 +255,18 @@ class Run(RunBase):
         self.note_state([self.last, sorted(self.contained.items()),
                          sorted((i, v if v in (True, False) else sorted(v)) for i, v in self.assigned.items())])
         return out
+
+    def finish(self):
+        for la in self.idle.lanelet_network.lanelets:
+            if la.static_obstacles_on_lanelet or any(v for v in la.dynamic_obstacles_on_lanelet.values()):
+                raise Violation("C07/independent-scenario-affected/finish",
+                                f"lanelet {la.lanelet_id} of a second, independent scenario in which nothing was ever "
+                                f"assigned lists obstacles: {sorted(la.static_obstacles_on_lanelet)} / "
+                                f"{dict(la.dynamic_obstacles_on_lanelet)}")
+        for o in self.idle.static_obstacles + self.idle.dynamic_obstacles:
+            if o.initial_shape_lanelet_ids or o.initial_center_lanelet_ids:
+                raise Violation("C07/independent-scenario-affected/finish",
+                                f"obstacle {o.obstacle_id} of a second, independent scenario got an assignment")
 
     def _op_check(self, op):
         return "ok"
